@@ -429,6 +429,9 @@ func c10History(c *vk.Ctx, r *rand.Rand, hist int, hub *TargetHub, utgt *udpTarg
 		}
 		big.Services = append(big.Services, bigSvc)
 		prev := cur
+		if fi, err := os.Stat(srv.CfgPath); err == nil && fi.IsDir() { // left behind by an "unreadable file" step
+			os.RemoveAll(srv.CfgPath)
+		}
 		for pass, cf := range []ConfSpec{big, prev} {
 			yaml := []byte(cf.YAML())
 			if pass == 0 {
